@@ -24,7 +24,7 @@ PROPERTY = 'C15'
 LEVEL = 'exploration'
 RULE = ('full product of single requests {str (ascii / non-ascii / >64 KiB), bytes (binary / >64 KiB), empty str/bytes, list, '
         'empty list, generator handler (yield), response.body = generator (mixed str/bytes/empty items, first item empty, no '
-        'items, only empty items, >64 KiB, one 19-byte item), io.BytesIO, empty BytesIO, real temp file of 70000 bytes, real file '
+        'items, only empty items, >64 KiB, one 19-byte item), io.BytesIO, empty BytesIO, real temp file of 70000 bytes, raw streams whose read(n) returns fewer than n bytes before the end, real file '
         'with application-set Content-Length, pushed stream events} x {returned / assigned to response.body} x response.stream '
         '{off, on} x status {200, 201, 204, 304, 404, 500} x {HTTP/1.0, HTTP/1.1} x Connection {keep-alive, close, absent} x '
         '{GET, HEAD, POST}, plus error responses (notfound(), raise, httperror), plus seeded random sequences of 1-4 such requests '
@@ -44,7 +44,7 @@ ASSUMPTIONS = [
     'signature and (c) a twin with only that trigger neutralised no longer shows those failures; remaining/new failures are explained recursively the same way or stay violations',
 ]
 REQUIRED = ['framing_length', 'framing_chunked', 'framing_close', 'framing_none_head', 'framing_none_status', 'chunked_multi_chunk',
-            'stream_events', 'body_gt_64k', 'nonascii_str_body', 'generator_empty_item', 'file_body_bytesio', 'file_body_real',
+            'stream_events', 'body_gt_64k', 'nonascii_str_body', 'generator_empty_item', 'file_body_bytesio', 'file_body_real', 'file_body_short_reads',
             'keepalive_further_request', 'keepalive_http10', 'close_announced_and_closed', 'kept_open_unannounced',
             'reconnect_after_close', 'head_requests', 'post_requests', 'error_page_response', 'app_content_length',
             'both_decoders_compared', 'ref_selfcheck_vectors', 'sequence_len_ge_3', 'loopback_crosschecked']
@@ -96,6 +96,27 @@ def enc(x):
     return x if isinstance(x, bytes) else x.encode('utf-8')
 
 
+class ShortReader:
+    """A raw stream (pipe, socket file, io.RawIOBase): read(n) may return fewer than n bytes although more follow; only b'' is the end."""
+
+    def __init__(self, data, sizes):
+        self.data, self.sizes, self.pos, self.calls, self.closed = data, list(sizes), 0, 0, False
+
+    def read(self, n=-1):
+        if self.pos >= len(self.data):
+            return b''
+        k = self.sizes[self.calls % len(self.sizes)]
+        self.calls += 1
+        if n is not None and n >= 0:
+            k = min(k, n)
+        chunk = self.data[self.pos:self.pos + k]
+        self.pos += k
+        return chunk
+
+    def close(self):
+        self.closed = True
+
+
 def body_items(body):
     if body is None:
         return []
@@ -125,12 +146,14 @@ def R(method='GET', proto='1.1', conn=None, status=200, how='ret', body=None, st
             'stream': stream, 'cl': cl, 'hdrs': [list(h) for h in hdrs]}
 
 
-def B(kind, v=None, items=None, real=False):
+def B(kind, v=None, items=None, real=False, short=None):
     b = {'kind': kind}
     if kind in ('str', 'bytes', 'file'):
         b['v'] = v
         if kind == 'file':
             b['real'] = real
+            if short:
+                b['short'] = list(short)     # a raw stream: read(n) hands out these many bytes at a time (fewer than asked for, yet not the end)
     else:
         b['items'] = list(items or [])
     return b
@@ -253,6 +276,8 @@ def make_handler(world, case, idx, r):
                 with open(path, 'wb') as f:
                     f.write(data)
                 return open(path, 'rb')
+            if body.get('short'):
+                return ShortReader(data, body['short'])
             import io
             return io.BytesIO(data)
         raise AssertionError(kind)
@@ -593,6 +618,8 @@ def run_case(case):
         if b and not f:
             if b['kind'] == 'file':
                 marks.add('file_body_real' if b.get('real') else 'file_body_bytesio')
+                if b.get('short'):
+                    marks.add('file_body_short_reads')
             if b['kind'] in ('gen', 'yield', 'list') and any(enc(i) == b'' for i in b['items']) and expected_body(b):
                 marks.add('generator_empty_item')
             if any(isinstance(mat(i), str) and enc(i) != mat(i).encode('ascii', 'replace') for i in body_items(b)):
@@ -924,6 +951,13 @@ def body_variants():
         out.append(('ret', stream, False, B('file', b'')))
         out.append(('ret', stream, False, B('file', {'rep': b'0123456789abcde\n', 'n': 4375}, real=True)))   # 70000 bytes
     out.append(('ret', False, True, B('file', b'served like serve_file does', real=True)))
+    # raw streams with short reads
+    f2 = B('file', b'first-second-third-\x00\xff-and-the-rest-of-it', short=[6, 7, 5, 1])
+    for how in ('ret', 'set'):
+        for stream in (False, True):
+            out.append((how, stream, False, f2))
+    out.append(('ret', False, True, f2))
+    out.append(('ret', False, False, B('file', {'rep': b'0123456789abcde\n', 'n': 4375}, short=[1000, 8192, 3, 20000])))
     return out
 
 
@@ -978,6 +1012,9 @@ def corpus():
     add('head-keepalive-last', R(method='HEAD', body=S))
     add('stream-first-chunk', R(body=G, how='set', stream=True))
     add('file-bytesio', R(body=B('file', b'bytesio-body')))
+    add('file-short-reads', R(body=B('file', b'first-second-third', short=[6, 7, 5])), R(body=S))
+    add('file-short-reads-app-cl', R(body=B('file', b'first-second-third', short=[6, 7, 5]), cl=True), R(body=S))
+    add('file-short-reads-http10', R(proto='1.0', body=B('file', b'first-second-third', short=[6, 7, 5])))
     add('file-real-multi-chunk', R(body=B('file', {'rep': b'0123456789abcde\n', 'n': 4375}, real=True)))
     add('file-real-app-cl', R(body=B('file', b'like serve_file', real=True), cl=True), R(body=S))
     # _on_stream: chunk framing, empty items skipped, terminator, close on 1.0
